@@ -105,6 +105,15 @@ class Boom(Exception):
     pass
 
 
+class InjectedFault(OSError):
+    """Raised by the storage tap INSTEAD of performing a storage operation (EIO): an I/O fault, not a process death."""
+
+
+# storage operations that can fail with an OSError in real life (never the lock protocol itself)
+FAULT_KINDS = frozenset(["create", "open-r", "open-rw", "write", "flush", "close", "remove", "rename", "listdir", "stat",
+                         "mkdir", "makedirs", "rmdir", "seek", "truncate"])
+
+
 def make_schema():
     from whoosh import fields
     return fields.Schema(id=fields.ID(stored=True, unique=True), t=fields.TEXT(stored=True))
@@ -157,6 +166,7 @@ class History(object):
         self.problems = []      # (monitor, mech, detail) found on line
         self.expected_commits = 0
         self.possible = 0       # acquisitions in flight or held (on-line view for the 'overlapping attempt' counter)
+        self.faults = {}        # tid -> {"countdown": n, "fired": None | (kind, basename)}: one-shot injected I/O fault
 
     def on_event(self, n, kind, name, detail=None):
         s = self.sched
@@ -177,6 +187,12 @@ class History(object):
             if m and tid is not None and int(m.group(1)) > 0:
                 self.on_toc(tid, int(m.group(1)), n)
         s.on_event(n, kind, name, detail)
+        f = self.faults.get(tid)
+        if f is not None and f["fired"] is None and kind in FAULT_KINDS and not is_lock(b):
+            f["countdown"] -= 1
+            if f["countdown"] <= 0:
+                f["fired"] = (kind, b)
+                raise InjectedFault(5, "injected I/O fault before %s" % kind, str(name))
 
     def on_toc(self, tid, gen, n):
         owner = self.owner_of.get(tid)
@@ -443,8 +459,12 @@ def attempt_segment(env, k, j, rng):
     timeout, delay = draw_timeout(rng)
     a = new_attempt(env, k, j, "segment", timeout, delay)
     ctx.count("front.segment.attempts")
+    # (own generator: the main stream of the thread stays what it was before I/O faults existed)
+    frng = random.Random("c04-fault:%s:%d:%d" % (env.tag, k, j))
+    want_fault = frng.random() < 0.12
+    wkw = {"limitmb": 0.0002} if want_fault else {}      # tiny posting pool: add_document spills run files
     try:
-        w = ix.writer(timeout=timeout, delay=delay, compound=env.compound)
+        w = ix.writer(timeout=timeout, delay=delay, compound=env.compound, **wkw)
     except index.LockError:
         a["ret"], a["result"] = H.mark(), "lockerror"
         return
@@ -457,6 +477,8 @@ def attempt_segment(env, k, j, rng):
     adds, dels = plan_ops(env, rng, owner, H.model(w.generation - 1))
     fin_kind = rng.choice(["default", "default", "nomerge", "nomerge", "optimize", "with", "cancel", "exception"]
                           + (["clear"] if rng.random() < 0.25 else []))
+    if want_fault:
+        fin_kind = "iofault"
     H.owner_of[s.current()] = owner
     H.pending[owner] = {"adds": dict(adds), "dels": list(dels), "clear": fin_kind == "clear"}
     if rng.random() < 0.2:
@@ -474,6 +496,45 @@ def attempt_segment(env, k, j, rng):
                                "ix.writer() succeeded while the same thread still held an open writer"))
             w2.cancel()
             return "stop"
+    if fin_kind == "iofault":
+        # the whole body runs inside the with-block; a storage operation of THIS thread fails with an OSError before commit
+        # starts (the fault is one-shot: the cancel() that __exit__ performs runs on a healthy storage again)
+        fin = {"kind": fin_kind, "call": H.mark(), "ret": None, "kind_class": "iofault"}
+        a["fin"] = fin
+        tid = s.current()
+        f = H.faults[tid] = {"countdown": frng.choice([1, 1, 2, 3, 5, 8, 13, 21]), "fired": None}
+        ctx.count("finish.iofault.armed")
+        out = None
+        try:
+            with w:
+                for key, text in sorted(adds.items()):
+                    w.add_document(id=key, t=text + " " + " ".join(frng.choice(VOCAB) for _ in range(frng.randint(2, 12))))
+                for key in dels:
+                    w.delete_by_term("id", key)
+                if frng.random() < 0.5 and dels:
+                    w.update_document(id=dels[0], t="golf")
+                H.faults.pop(tid, None)
+                raise Boom()
+        except Boom:
+            out = "not-reached"
+        except InjectedFault:
+            out = "fault"
+        finally:
+            H.faults.pop(tid, None)
+        fin["ret"] = H.mark()
+        H.pending.pop(owner, None)
+        stale.setdefault(k, []).append(w)
+        ctx.count("finish.iofault." + out)
+        if f["fired"]:
+            ctx.count("finish.iofault.at.%s" % f["fired"][0])
+        a["iofault"] = f["fired"]
+        if [c for c in H.commits if c["owner"] == owner]:
+            H.problems.append(("lost-update", "iofault-published-a-toc", {"attempt": _slim(a)}, ""))
+            return "stop"
+        # cancel semantics: nothing of the failed block is visible, the generation is what it was
+        if not check_read(env, "after_iofault", None, a):
+            return "stop"
+        return
     for key, text in sorted(adds.items()):
         w.add_document(id=key, t=text)
     for key in dels:
